@@ -45,6 +45,21 @@ static int cmp_rev(const void *a, size_t an, const void *b, size_t bn) {
     cmp_calls++;
     return qtreetbl_byte_cmp(b, bn, a, an);
 }
+/* mode 3: trailing blanks do not count - keys of DIFFERENT lengths compare equal */
+static int cmp_strip(const void *a, size_t an, const void *b, size_t bn) {
+    cmp_calls++;
+    while (an > 0 && ((const unsigned char *) a)[an - 1] == ' ') an--;
+    while (bn > 0 && ((const unsigned char *) b)[bn - 1] == ' ') bn--;
+    return qtreetbl_byte_cmp(a, an, b, bn);
+}
+/* mode 4: the byte order, computed by a comparator with a side effect on errno (strtol-, strcoll-
+ * or logging-style comparators leave errno set; no library result may depend on that) */
+static int cmp_errno(const void *a, size_t an, const void *b, size_t bn) {
+    cmp_calls++;
+    int r = qtreetbl_byte_cmp(a, an, b, bn);
+    errno = (cmp_calls & 1) ? ERANGE : EINTR;
+    return r;
+}
 static int cmp_fold(const void *a, size_t an, const void *b, size_t bn) {
     cmp_calls++;
     size_t m = an < bn ? an : bn;
@@ -185,6 +200,48 @@ out:
     if (ok) printf("ok live=%ld", aw_live - live0);
 }
 
+/* ---- `bigtree` (thorough tier only, no model line): a table of about 850000 keys built in an order that
+ * makes the left spine below the root's right child as long as the balance invariant allows (2^19-1
+ * ascending keys, then 327679 keys just above the root in descending order), then removal of the root
+ * key and of every 997th key with qtreetbl_check() after each; fixed-size helper arrays that assume a
+ * height of log2(n) instead of 2*log2(n+1) overflow here. Prints `ok live=0` or the first problem. */
+static void bt_key(unsigned char *k, uint64_t v) { for (int i = 0; i < 8; i++) k[i] = (unsigned char) (v >> (56 - 8 * i)); }
+static void do_bigtree(void) {
+    long live0 = aw_live;
+    qtreetbl_t *t = qtreetbl(0);
+    unsigned char k[8];
+    int ok = 0;
+    if (!t) { printf("no-memory"); return; }
+    const uint64_t N1 = (1u << 19) - 1, N2 = 327679;
+    for (uint64_t i = 0; i < N1; i++) { bt_key(k, i << 32); if (!t->putobj(t, k, 8, "v", 2)) { printf("mismatch: put #%llu failed", (unsigned long long) i); goto out; } }
+    uint64_t X = ((uint64_t) 1 << 18) << 32;
+    for (uint64_t j = N2; j >= 1; j--) { bt_key(k, X + j); if (!t->putobj(t, k, 8, "w", 2)) { printf("mismatch: put X+%llu failed", (unsigned long long) j); goto out; } }
+    if (t->size(t) != N1 + N2 || qtreetbl_check(t) != 0) { printf("mismatch: size %zu / check %d after the build", t->size(t), qtreetbl_check(t)); goto out; }
+    bt_key(k, X);
+    if (!t->removeobj(t, k, 8) || qtreetbl_check(t) != 0 || t->size(t) != N1 + N2 - 1) { printf("mismatch: removing the key above the long spine: check %d size %zu", qtreetbl_check(t), t->size(t)); goto out; }
+    size_t removed = 1;
+    for (uint64_t i = 1; i < N1; i += 997) {
+        bt_key(k, i << 32);
+        if (i << 32 == X) continue;
+        if (!t->removeobj(t, k, 8)) { printf("mismatch: remove of present key %llu failed", (unsigned long long) i); goto out; }
+        removed++;
+        if ((i / 997) % 64 == 0 && qtreetbl_check(t) != 0) { printf("mismatch: check %d after %zu removals", qtreetbl_check(t), removed); goto out; }
+    }
+    if (qtreetbl_check(t) != 0 || t->size(t) != N1 + N2 - removed) { printf("mismatch: final check %d size %zu", qtreetbl_check(t), t->size(t)); goto out; }
+    {
+        qtreetbl_obj_t o; memset(&o, 0, sizeof o); size_t n = 0; unsigned char prev[8]; int have = 0;
+        while (t->getnext(t, &o, false)) {
+            if (have && memcmp(prev, o.name, 8) >= 0) { printf("mismatch: walk not ascending at item %zu", n); goto out; }
+            memcpy(prev, o.name, 8); have = 1; n++;
+        }
+        if (n != t->size(t)) { printf("mismatch: walk returned %zu of %zu keys", n, t->size(t)); goto out; }
+    }
+    ok = 1;
+out:
+    t->free(t);
+    if (ok) printf("ok live=%ld", aw_live - live0);
+}
+
 int main(void) {
     char *line = NULL; size_t cap = 0; ssize_t len;
     harness_init();
@@ -196,9 +253,23 @@ int main(void) {
         if (nw == 0) continue;
         const char *op = w[0];
         bytes_t k = {0, 0}, v = {0, 0};
-        if (nw >= 2 && strcmp(op, "new") && strcmp(op, "quiet") && strcmp(op, "hugetree") && strncmp(op, "fault", 5) && !unhex(w[1], &k)) { printf("bad-hex\n"); continue; }
+        if (nw >= 2 && strcmp(op, "new") && strcmp(op, "quiet") && strcmp(op, "errno") && strcmp(op, "hugetree") && strncmp(op, "fault", 5) && !unhex(w[1], &k)) { printf("bad-hex\n"); continue; }
         if (nw >= 3 && strcmp(op, "putnull") && !unhex(w[2], &v)) { printf("bad-hex\n"); continue; }
         alarm(2);
+        if (!strcmp(op, "errno") && nw == 2) {
+            /* the errno value the "caller" brings into every following library call (no result may
+             * depend on it); named values so that transcripts are readable */
+            const char *ev = w[1];
+            stale_errno = !strcmp(ev, "ENOMEM") ? ENOMEM : !strcmp(ev, "ERANGE") ? ERANGE : !strcmp(ev, "EINTR") ? EINTR
+                        : !strcmp(ev, "ENOENT") ? ENOENT : !strcmp(ev, "EINVAL") ? EINVAL : !strcmp(ev, "EAGAIN") ? EAGAIN
+                        : !strcmp(ev, "ENOBUFS") ? ENOBUFS : 0;
+            printf("ok\n"); alarm(0); free(k.p); free(v.p); continue;
+        }
+        if (!strcmp(op, "bigtree") && nw == 1) {
+            alarm(0);
+            do_bigtree();
+            printf("\n"); free(k.p); free(v.p); continue;
+        }
         if (!strcmp(op, "hugetree") && nw == 2) {
             alarm(0);
             do_hugetree(strtoull(w[1], NULL, 10));
@@ -221,7 +292,7 @@ int main(void) {
             int failed_ctor = (tbl == NULL);
             if (failed_ctor) tbl = qtreetbl(0); else if (m >= 10) ts_blocks = 1;
             m %= 10;
-            qtreetbl_set_compare(tbl, m == 1 ? cmp_rev : m == 2 ? cmp_fold : cmp_count);
+            qtreetbl_set_compare(tbl, m == 1 ? cmp_rev : m == 2 ? cmp_fold : m == 3 ? cmp_strip : m == 4 ? cmp_errno : cmp_count);
             memset(&cur, 0, sizeof(cur));
             if (failed_ctor) printf("null live=%ld", aw_live - (long) nkept - 1); else { printf("ok "); state(); }
         } else if (!strcmp(op, "quiet")) {
@@ -312,7 +383,7 @@ int main(void) {
         } else if (!strcmp(op, "min") || !strcmp(op, "max")) {
             size_t sz = 0;
             aw_begin();
-            errno = 0;
+            errno = stale_errno;   /* the library must set errno itself on every failure path */
             void *n = op[1] == 'i' ? tbl->find_min(tbl, &sz) : tbl->find_max(tbl, &sz);
             printf("allocs=%ld ", aw_end());
             if (n) { printf("key "); puthex(stdout, n, sz); keep(n, sz); } else printf(errno == ENOMEM ? "ENOMEM" : "ENOENT");
@@ -331,7 +402,7 @@ int main(void) {
             memset(&cur, 0, sizeof(cur)); printf("ok");
         } else if (!strcmp(op, "next")) {
             aw_begin();
-            errno = 0;
+            errno = stale_errno;   /* the library must set errno itself on every failure path */
             bool more = tbl->getnext(tbl, &cur, true);
             int e = errno;
             printf("allocs=%ld ", aw_end());
@@ -360,7 +431,7 @@ int main(void) {
             else { printf("walk %zu%.*s | ", n, (int) bl, buf); free(buf); state(); }
         } else if (!strcmp(op, "near") && nw == 2) {
             aw_begin();
-            errno = 0;
+            errno = stale_errno;   /* the library must set errno itself on every failure path */
             qtreetbl_obj_t o = tbl->find_nearest(tbl, k.p, k.n, true);
             printf("allocs=%ld ", aw_end());
             if (o.name == NULL) { printf(errno == ENOMEM ? "ENOMEM " : "ENOENT "); state(); }
